@@ -101,7 +101,7 @@ func TestWorker(t *testing.T) {
 			t.Fatal(err)
 		}
 		res := runOne(t, &runSpec{Property: rf.Property, Seed: rf.Seed, Config: rf.Config, Steps: rf.Steps, KeepSteps: false, TracePer: true,
-			StopAt: &Violation{Property: rf.Property, Oracle: rf.Oracle}})
+			StopAt: &Violation{Property: rf.Property, Oracle: rf.Oracle, Key: rf.Key}})
 		emit(res)
 	case "minimise":
 		rf, err := loadReplay(job.Replay)
